@@ -10,6 +10,7 @@ ThreadPoolExecutor and inspects threading.enumerate().  Theorems: lean/MlModel/P
 import copy
 
 from harness import lib_piter as lp
+from harness import lib_piter2 as lp2
 from harness import lib_piter_real as lr
 
 PID = 'C13'
@@ -56,6 +57,9 @@ def gen_cases(ctx):
     if i % 10 == 6:
       case = lp.blocked_case(rng, quick=ctx.quick)
       ctx.count('directed', 'blocked-producers')
+    if i % 12 == 2 and i % 10 != 6:
+      case = lp2.directed_case(rng, quick=ctx.quick)
+      ctx.count('directed', 'two-level')
     if i % 10 == 3:
       # directed at the hazards: more tasks than workers, full queue (more outputs than the buffer), then an
       # early stop or a late failure -- tasks that start late, producers parked in put during maybe_stop/shutdown
@@ -92,6 +96,8 @@ def run_impl(case):
 def model_requests_obs(case, obs):
   if case.get('stage') == 'real_threads':
     return []
+  if case['api'] == 'piter2':
+    return [lp2.model_request(case, obs['choices'])]
   return lp.model_requests_obs(case, obs)
 
 
@@ -108,8 +114,26 @@ def shrink(case, fails):
 
 
 model_requests = None
-model_obs = lp.model_obs
-compare = lp.compare
+POINTS2 = {}          # program points of the two-queue LTS exercised by the replayed schedules (main process)
+STATS2 = dict(replayed=0, deadlock=0, done=0)
+
+
+def model_obs(case, resps):
+  if resps and case.get('api') == 'piter2':
+    m = lp2.model_obs(case, resps)
+    for p in m['points']:
+      POINTS2[p] = POINTS2.get(p, 0) + 1
+    STATS2['replayed'] += 1
+    if m['outcome'] in STATS2:
+      STATS2[m['outcome']] += 1
+    return m
+  return lp.model_obs(case, resps)
+
+
+def compare(obs, m):
+  if m is not None and m.get('two_level'):
+    return lp2.compare(obs, m)
+  return lp.compare(obs, m)
 
 
 def nontrivial(case, obs):
@@ -144,8 +168,61 @@ def neighbours(case, rng):
     yield c
 
 
+EXPLORE_QUICK = [
+    # (inputs, P, buffer_size, workers, fifo, expect_stuck)   small enough for the quick tier (<= 5 s each)
+    ([[1, 2], []], 1, 1, 1, True, True),        # F-C13-pool-small (Witness/C13.lean): FIFO pool, the enqueuer blocks on the full input queue
+    ([[1, 2], []], 1, 1, 1, False, True),       # any-order pool: additionally the iterator_fn task first, no enqueuer ever starts
+    ([[1, 2], []], 1, 1, 2, False, False),      # one more worker: every schedule ends
+    ([[1], []], 1, 1, None, False, False),      # piter's own pool (fix b40a851): every schedule ends
+]
+EXPLORE_THOROUGH = EXPLORE_QUICK + [
+    ([[1], [2]], 1, 1, None, False, False),
+    ([[1, 2], [3]], 1, 1, 2, False, True),      # workers = #inputs
+    ([[1, 2], [3]], 1, 1, 2, True, True),
+    ([[1, 2], [3]], 1, 1, 3, False, False),     # caller's pool with #inputs + 1 workers
+    ([[1, 2], [3]], 2, 1, 2, False, True),      # any-order pool: both iterator_fn tasks first
+    ([[1, 2], [3]], 2, 1, 2, True, True),
+]
+
+
+def lts2_stage(ctx):
+  """two-queue LTS: (1) the replayed schedules have to exercise every promised program point; (2) exhaustive
+  exploration of ALL schedules of small configurations: a quiescent non-final configuration exists exactly where the
+  pool-size side condition of C13_two_* fails."""
+  from harness.core import InfraError
+  ctx.hist['lts2_points'] = dict(sorted(POINTS2.items()))
+  ctx.hist['lts2_replays'] = dict(STATS2)
+  missing = [p for p in lp2.PROMISED if p not in POINTS2]
+  ctx.notes.append(f'two-queue LTS: {STATS2["replayed"]} real two-level runs replayed step by step, '
+                   f'{len(POINTS2)} program points exercised ({len(lp2.PROMISED)} promised, missing {missing})')
+  if missing:
+    raise InfraError(f'two-level replays missed promised program points of Model/Piter2.lean: {missing}')
+  confs = EXPLORE_QUICK if ctx.quick else EXPLORE_THOROUGH
+  reqs = []
+  for inputs, P, cap, workers, fifo, _ in confs:
+    case = dict(par=P, cap=cap, workers=workers or 0, inputs=inputs, fn='ident', fail_on=None, num_steps=None)
+    r = lp2.explore_request(case, 3000000)
+    r['workers'] = workers
+    r['fifo'] = fifo
+    reqs.append(r)
+  resps = ctx.lean.ask_many(reqs)
+  for (inputs, P, cap, workers, fifo, expect), r in zip(confs, resps):
+    ctx.extra_evals += 1
+    desc = dict(inputs=inputs, par=P, buffer_size=cap, workers=workers, fifo=fifo, states=r['states'],
+                transitions=r['transitions'], complete=r['complete'], stuck=r['n_stuck'], final=r['n_final'])
+    ctx.hist.setdefault('lts2_explore', {})[str((inputs, P, cap, workers, fifo))] = desc
+    if not r['complete']:
+      ctx.notes.append(f'exploration incomplete: {desc}')
+      continue
+    if bool(r['n_stuck']) != expect:
+      ctx.extra_disagreements.append(('lts2_explore', dict(api='piter2', explore=desc),
+                                      f'exhaustive exploration of the two-queue LTS: stuck configurations {r["n_stuck"]} '
+                                      f'(expected {"some" if expect else "none"}): {r["stuck"][:1]}'))
+
+
 def extra(ctx):
   """Stage 2: real ThreadPoolExecutor, no shim (in a child process with a deadline)."""
+  lts2_stage(ctx)
   n = 500 if ctx.quick else 4000
   cases = []
   for i in range(n):
